@@ -26,8 +26,8 @@ fn nontrivial(table: &str, r: &[i64]) -> bool {
         },
         "serde" => match r[0] {
             0 | 1 => r[5] == 1,
-            2 | 3 => r[4] == 1,
-            4 => r[7] == 1,
+            2 | 3 | 9 => r[4] == 1,
+            4 | 8 => r[7] == 1,
             5 => r[5] == 1,
             6 => r[2] == 1,
             _ => true,
